@@ -10,7 +10,7 @@ Proof. reflexivity. Qed.
 Theorem pipeline_is_escape T p ml :
   single_sub p ml = Some (excl T ml) -> forall s, run_pipeline (esc_table T) p ml s = escape T ml s.
 Proof.
-  unfold single_sub, run_pipeline. destruct (effective p ml) as [|[ex|o n] [|st r]]; try discriminate.
+  unfold single_sub, run_pipeline. destruct (effective p ml) as [|[ex|o n|ex n] [|st r]]; try discriminate.
   intros H s. inversion H; subst. reflexivity.
 Qed.
 
@@ -26,4 +26,11 @@ Example postprocessing_pipeline_not_charwise_refuted :
   is_single_sub pp_pipeline true = false
   /\ run_pipeline pp_table pp_pipeline true [92; 110] = [92; 10]
   /\ run_pipeline pp_table pp_pipeline true [10] = [10].
+Proof. vm_compute. repeat split; reflexivity. Qed.
+
+(** A count-limited substitution is not the per-character map either: with [count = 2] the third double quote stays raw. *)
+Example limited_substitution_not_charwise_refuted :
+  is_single_sub [(PAlways, PSubN [] 2)] false = false
+  /\ run_pipeline pp_table [(PAlways, PSubN [] 2)] false [34; 34; 34] = [92; 34; 92; 34; 34]
+  /\ run_pipeline pp_table [(PAlways, PSub [])] false [34; 34; 34] = [92; 34; 92; 34; 92; 34].
 Proof. vm_compute. repeat split; reflexivity. Qed.
